@@ -192,7 +192,7 @@ def generate(tier, seed):
                 rng.shuffle(ms)
                 _unary(cases, rng, S, ms, dists=sorted({0, 1, rng.randint(0, S), S}))
     # ---- unary, sampled: larger contigs, more intervals, empty intervals
-    for i in range(250 if quick else 2500):
+    for i in range(250 if quick else 1500):
         S = rng.choice([3, 5, 6, 7, 10, 16, 30, 60])
         n = rng.choice([1, 2, 3, 4, 5, 6, 8, 10, 14])
         ms = _rand_set(rng, S, n, empty_p=0.15 if i % 3 == 0 else 0.0)
@@ -210,13 +210,13 @@ def generate(tier, seed):
                     if rng.random() < 0.15:
                         _binary(cases, rng, S, A, B, ops=('unique_intersect', 'jaccard', 'forbes'))
     # ---- binary, sampled pairs of small sets on contigs 3..6, then larger
-    for i in range(700 if quick else 6000):
+    for i in range(700 if quick else 4000):
         S = rng.choice([3, 4, 5, 6])
         base = _ivs(S)
         A = [rng.choice(base) for _ in range(rng.randint(0, 3))]
         B = [rng.choice(base) for _ in range(rng.randint(0, 3))]
         _binary(cases, rng, S, A, B)
-    for i in range(200 if quick else 2000):
+    for i in range(200 if quick else 1000):
         S = rng.choice([7, 10, 16, 30, 60])
         A = _rand_set(rng, S, rng.choice([0, 1, 2, 4, 6, 9, 14]), empty_p=0.1 if i % 4 == 0 else 0.0)
         B = _rand_set(rng, S, rng.choice([0, 1, 2, 4, 6, 9, 14]), empty_p=0.1 if i % 4 == 1 else 0.0)
@@ -225,8 +225,8 @@ def generate(tier, seed):
             A = _disjoint(rng, S, A)
             B = _disjoint(rng, S, B)
         _binary(cases, rng, S, A, B)
-    _sort_cases(cases, rng, 300 if quick else 3000, tier)
-    _clip_extend(cases, rng, 200 if quick else 2000)
+    _sort_cases(cases, rng, 300 if quick else 2000, tier)
+    _clip_extend(cases, rng, 200 if quick else 1200)
     return cases
 
 
